@@ -194,15 +194,15 @@ func (v *Verifier) contractFor(f *ssa.Function) *FuncContract {
 	// rendered runtime: contracts keyed "runtime:<name>" apply to any package
 	if f.Parent() == nil {
 		sn := shortFuncName(f)
-		if c, ok := v.CS.Funcs["runtime."+sn]; ok {
+		if c, ok := v.CS.Funcs["lox.runtime."+sn]; ok {
 			return c
 		}
 		if i := strings.Index(sn, "."); i >= 0 {
-			if c, ok := v.CS.Funcs["runtime.@"+sn[i:]]; ok {
+			if c, ok := v.CS.Funcs["lox.runtime.@"+sn[i:]]; ok {
 				return c
 			}
 			if strings.HasPrefix(sn[i+1:], "on_") {
-				if c, ok := v.CS.Funcs["runtime.@.on_*"]; ok {
+				if c, ok := v.CS.Funcs["lox.runtime.@.on_*"]; ok {
 					return c
 				}
 			}
@@ -220,7 +220,7 @@ func (v *Verifier) lookupPure(pkg *types.Package, name string) *PureFunc {
 	if pf, ok := v.CS.Pures["prelude."+name]; ok {
 		return pf
 	}
-	if pf, ok := v.CS.Pures["runtime."+name]; ok {
+	if pf, ok := v.CS.Pures["lox.runtime."+name]; ok {
 		return pf
 	}
 	return nil
